@@ -260,6 +260,12 @@ impl Terms {
         ids
     }
 
+    /// is `id` a declared (free) constant that is currently visible?
+    pub fn is_visible_declared(&self, id: u32) -> bool {
+        let sym = &self.syms[id as usize];
+        sym.def.is_none() && self.visible.get(&sym.name) == Some(&id)
+    }
+
     pub fn visible_all(&self) -> Vec<u32> {
         let mut ids: Vec<u32> = self.visible.values().copied().collect();
         ids.sort_unstable();
